@@ -6,16 +6,34 @@
    op sequence over read / readline / readlines / write / seek / tell / truncate / flush,
        fst (sf_run fuel f0 ops) = fst (ref_run r0 ops)  /\
        final_content fuel (snd (sf_run fuel f0 ops)) = r_content (snd (ref_run r0 ops)).
-   What is proved: C27_refines_partial — the same conclusion for every op sequence made of
-   read(n) / read() / readline(size) / seek / tell (read_only_op), every readable mode, buffer
-   size, initial file and chunk behaviour of the server; missing cases: write, flush, truncate,
-   readlines, and the non-readable modes (w, a, x), which are covered by the differential run
-   only.  sf_* is the model of SFTPFile over BufferedFile (C42) over the server handle with its
+   What is proved: C27_refines_partial — the same conclusion for every DISCIPLINED op sequence
+   (reads/tell with an empty write buffer, writes with an empty read buffer, seek, flush,
+   truncate last), all modes, all buffer sizes; missing cases: readlines, truncate in the middle
+   of a program, and the undisciplined call patterns, on which the code genuinely diverges (the
+   _refuted theorems below).  sf_* is the model of SFTPFile over BufferedFile (C42) over the server handle with its
    __tell cache; ref_* is Lib/FileSpec.v. *)
-From PV Require Import Bytes C42 C42_proofs FileSpec C27 C27_proofs.
+From PV Require Import Bytes C42 C42_gen C42_proofs FileSpec C27 C27_gen C27_proofs.
 Open Scope Z_scope.
 
+(* refinement on the DISCIPLINED fragment (see `guard` / `guarded` in Model/C27.v): any program of
+   read(n) / read() / readline(size) / tell (with an empty write buffer), write (with an empty read
+   buffer), seek, flush, optionally ended by truncate (writable file, nothing pending) -- every mode
+   except the bare "x", every buffer size (unbuffered, line-buffered, block-buffered), existing or
+   missing file.  The guard is evaluated on the model state the call meets; its first conjunct
+   only says that `fuel` suffices for the model's loops.  The differential run checks that the
+   harness's disciplined programs satisfy `guarded` (run_c27_guard). *)
 Theorem C27_refines_partial :
+  forall (m : fmode) (bufsz : Z) (file : option (list Z)) (ops : list fop) (fuel : nat)
+         (f0 : sfile) (r0 : rfile),
+    sf_open m bufsz file = Some f0 -> ref_open m file = Some r0 -> m <> Mxbare ->
+    guarded fuel f0 ops = true ->
+    fst (sf_run fuel f0 ops) = fst (ref_run r0 ops) /\
+    final_content fuel (snd (sf_run fuel f0 ops)) = r_content (snd (ref_run r0 ops)).
+Proof. exact refines_partial. Qed.
+Print Assumptions C27_refines_partial.
+
+(* the read / seek / tell fragment under a purely static condition on the program *)
+Theorem C27_refines_read_fragment :
   forall (m : fmode) (bufsz : Z) (file : option (list Z)) (ops : list fop) (fuel : nat)
          (f0 : sfile) (r0 : rfile),
     sf_open m bufsz file = Some f0 -> ref_open m file = Some r0 ->
@@ -23,8 +41,19 @@ Theorem C27_refines_partial :
     (length (r_content r0) < fuel)%nat ->
     fst (sf_run fuel f0 ops) = fst (ref_run r0 ops) /\
     final_content fuel (snd (sf_run fuel f0 ops)) = r_content (snd (ref_run r0 ops)).
-Proof. exact refines_partial. Qed.
-Print Assumptions C27_refines_partial.
+Proof. exact refines_read_fragment. Qed.
+Print Assumptions C27_refines_read_fragment.
+
+(* _write_all over the server handle: the whole data lands contiguously at _realpos (or at the end
+   in append mode), whatever the 32768-byte request splitting *)
+Theorem C27_write_all_lands :
+  forall (fuel : nat) (f : sfile) (data : list Z),
+    (length data < fuel)%nat -> srv_ok (strm f) -> s_app (strm f) = fl_append f -> 0 <= realpos f ->
+    (fl_append f = true -> fsize f = zlen (s_content (strm f))) ->
+    exists f', write_all s_write fuel f data = Some f' /\
+      s_content (strm f') = wa_content (fl_append f) (s_content (strm f)) (realpos f) data.
+Proof. exact write_all_lands. Qed.
+Print Assumptions C27_write_all_lands.
 
 (* open() succeeds remotely exactly when it succeeds locally: every mode, missing or existing file *)
 Theorem C27_open_agrees :
@@ -42,6 +71,16 @@ Theorem C27_server_read_exact :
     sInv c s' (rp + zlen d).
 Proof. exact s_read_spec. Qed.
 Print Assumptions C27_server_read_exact.
+
+(* the model's MAX_REQUEST_SIZE and its table of modes -- wire flags put out by the real
+   SFTPClient.open, their translation by the real _convert_pflags (access mode, O_APPEND, O_CREAT,
+   O_TRUNC, O_EXCL) and the FLAG_* bits of the SFTPFile returned -- are those of the source
+   (regenerated on every run by gen/c27.py), for the 8 mode strings r, r+, w, w+, a, a+, wx, x *)
+Theorem C27_source_tables :
+  MAX_REQUEST_SIZE = G_MAX_REQUEST_SIZE /\
+  forallb open_row_ok G_open_table = true /\ map fst G_open_table = [0; 1; 2; 3; 4; 5; 6; 7].
+Proof. exact source_tables. Qed.
+Print Assumptions C27_source_tables.
 
 (* ---- divergences of the code as it is (known findings), each a concrete witness ---- *)
 Theorem C27_read_with_pending_write_refuted :
@@ -77,7 +116,7 @@ Theorem C27_bare_x_refuted :
 Proof. exact refuted_bare_x. Qed.
 Print Assumptions C27_bare_x_refuted.
 
-(* non-vacuity of C27_refines_partial: an "a+" file with bufsize 3, mixed reads and seeks incl.
+(* non-vacuity of C27_refines_read_fragment: an "a+" file with bufsize 3, mixed reads and seeks incl.
    a rejected negative seek, meets the hypotheses; the results are the reference's *)
 Example C27_example :
   let file := Some [97;98;10;99;100;10;101] in
@@ -86,4 +125,15 @@ Example C27_example :
     m_read Map = true /\ forallb read_only_op ops = true /\
     fst (sf_run 20 f0 ops) =
       [FInt 7; FNone; FBytes [97;98;10]; FBytes [99;100]; FExn; FNone; FBytes [100;10;101]; FInt 7].
+Proof. eexists _, _. repeat split. Qed.
+
+(* non-vacuity of C27_refines_partial: a block-buffered (bufsize 4) "r+" program mixing reads,
+   seeks, buffered writes crossing the buffer size, flush and a final truncate is guarded *)
+Example C27_example_disciplined :
+  let file := Some [97;98;10;99;100;10;101] in
+  let ops := [FReadline None; FSeek 0 1; FWrite [120;121]; FWrite [122;10;119]; FFlush; FTell;
+              FSeek 1 0; FRead (Some 3); FSeek (-2) 2; FWrite [113]; FSeek 0 1; FTruncate 9] in
+  exists f0 r0, sf_open Mrp 4 file = Some f0 /\ ref_open Mrp file = Some r0 /\
+    guarded 40 f0 ops = true /\
+    final_content 40 (snd (sf_run 40 f0 ops)) = [97;98;10;120;121;122;113;119;0].
 Proof. eexists _, _. repeat split. Qed.
